@@ -1,4 +1,5 @@
 SPECIFICATION Spec
+CONSTANT StarHost = FALSE
 INVARIANT C17_Kepler
 INVARIANT KeplerCurrentAlways
 CHECK_DEADLOCK FALSE
